@@ -43,7 +43,8 @@ PROBES = ["pos", "wrongkey", "byz_client", "byz_server", "aead_keys_checked",
           "mac_checked", "finished_checked", "exporter_checked",
           "expansion_checked", "split_1n1", "keyupdate_keys_checked",
           "resume_other", "resume_same_hash", "resume_other_hash",
-          "dualcert", "dual_rsa", "dual_ecdsa"]
+          "dualcert", "dual_rsa", "dual_ecdsa", "odd_dh",
+          "premaster_odd", "premaster_even"]
 COMPONENTS_REAL = ["tlslite handshake + record layer + constants tables"]
 COMPONENTS_STUB = ["socket", "os.urandom", "clock",
                    "byzantine peer = real TLSConnection with "
@@ -102,6 +103,15 @@ def plan(tier, base_seed):
                                  "ver": [3, 4], "case": "resume_other",
                                  "rep": rep})
                     i += 1
+        # key derivation from a premaster secret of ODD length (RFC 2246 s5:
+        # the two halves of the secret share the middle octet): finite-field
+        # DH over a 1025-bit safe prime, the master secret recomputed from
+        # the tapped premaster secret with model/prf.py
+        for ver in ([3, 1], [3, 2], [3, 3]):
+            for role_ems in (0, 1):
+                jobs.append({"seed": seed0 + i, "sid": 0x0033, "ver": ver,
+                             "case": "odd_dh", "rep": rep, "ems": role_ems})
+                i += 1
         # dual-certificate servers: the certificate sent must be of the key
         # type the negotiated suite's name denotes, whatever the client's
         # signature-algorithm / suite restrictions
@@ -115,6 +125,55 @@ def plan(tier, base_seed):
     for j in jobs[:3]:
         j["keep"] = True
     return jobs
+
+
+ODD_P = 2 ** 1024 + 1657867       # safe prime, 129 octets
+
+
+def run_odd_dh(job, ch, seed, policy, v, viol, probes):
+    import tlslite.tlsconnection as tc_mod
+    ver = tuple(job["ver"])
+    sc = scen.suite_scenario(0x0033, ver, True)
+    for side in ("cset", "sset"):
+        sc[side]["dhGroups"] = []
+        sc[side]["useExtendedMasterSecret"] = False
+    sc["sset"]["dhParams"] = [2, ODD_P]
+    sim = nodes.new_run(seed, chooser=ch, max_steps=100000)
+    pair = nodes.Pair(sim, sc, policy=policy, wb_budget=kernel.Budget(20),
+                      delay_budget=kernel.Budget(20))
+    calls = []
+    orig = tc_mod.calc_key
+
+    def tap(version, secret, cipher_suite, label, **kw):
+        r = orig(version, secret, cipher_suite, label, **kw)
+        if label == b"master secret":
+            calls.append((bytes(secret), bytes(kw.get("client_random") or b""),
+                          bytes(kw.get("server_random") or b""), bytes(r)))
+        return r
+    tc_mod.calc_key = tap
+    try:
+        oc, os_, st = pair.handshake()
+    finally:
+        tc_mod.calc_key = orig
+    if not (oc.kind == "ok" and os_.kind == "ok"):
+        v("handshake", "odd_dh", "DHE handshake over the 1025-bit group "
+          "failed: %r %r" % (oc.exc, os_.exc))
+        return _result(job, ch, sim, pair, viol, probes, False, "odd")
+    for pm, cr, sr, ms in calls:
+        probes["premaster_odd" if len(pm) % 2 else "premaster_even"] = 1
+        want = mprf.prf(ver, "sha256", pm, b"master secret", cr + sr, 48)
+        if want != ms:
+            v("master_secret", "%s|len%d" % ("odd" if len(pm) % 2 else
+                                             "even", len(pm) % 2),
+              "master secret is not PRF(premaster[%d octets], 'master "
+              "secret', client_random + server_random)" % len(pm))
+    if not calls:
+        v("master_secret", "untapped", "no master-secret derivation seen")
+    for w, conn in (("c", pair.c.conn), ("s", pair.s.conn)):
+        if calls and bytes(conn.session.masterSecret) != calls[-1][3]:
+            v("master_secret", "session|" + w, "session.masterSecret "
+              "differs from the derived value")
+    return _result(job, ch, sim, pair, viol, probes, True, "odd")
 
 
 DUAL_CLIENTS = {
@@ -298,6 +357,8 @@ def run(job, streams=None):
         return run_resume_other(job, ch, seed, policy, v, viol, probes)
     if case == "dualcert":
         return run_dualcert(job, ch, seed, policy, v, viol, probes)
+    if case == "odd_dh":
+        return run_odd_dh(job, ch, seed, policy, v, viol, probes)
     sc = scen.suite_scenario(sid, ver, etm)
     if case == "wrongkey":
         other = {"rsa": "ecdsa", "ecdsa": "rsa", "dsa": "rsa"}[suite.auth]
@@ -704,7 +765,8 @@ def _result(job, ch, sim, pair, viol, probes, nontrivial, tag):
     h.update(tag.encode())
     h.update(json.dumps([x["sig"] for x in viol]).encode())
     key = json.dumps([job["sid"], job["ver"], job["case"], job.get("etm"),
-                      job.get("rep"), job.get("sid2"), job.get("dual")])
+                      job.get("rep"), job.get("sid2"), job.get("dual"),
+                      job.get("ems")])
     return {"violations": viol, "nontrivial": nontrivial, "key": key,
             "digest": h.hexdigest(), "faults": dict(sim.stats),
             "probes": probes, "steps": sim.steps,
